@@ -146,9 +146,7 @@ def rosenFirstVal (c : K) (v : Vec K) : K :=
 def rosenLastVal (c : K) (n : Nat) (v : Vec K) : K :=
   (1 + 1) * c * (v (n - 1) - v (n - 2) * v (n - 2))
 
-/-- `RosenbrockFunctional.gradient` : `RosenbrockGradient._call(x, out)` (example_funcs.py), for a
-domain of size `n ≥ 2` and scale `c`: one statement per scalar assignment `out[i] = …`, in the
-order of the code (interior indices ascending, then `out[0]`, then `out[-1]`). -/
+/-- One scalar assignment `out[i] = …` of the interior loop of `RosenbrockGradient._call`. -/
 def rosenInner (c : K) (i : Nat) : Stmt K :=
   .set out [out, x] (fun a k => if k = i then rosenInnerVal c (a 1) i else a 0 k)
 
@@ -156,13 +154,18 @@ def rosenLoop (c : K) : List Nat → Stmt K
   | [] => .skip
   | i :: is => rosenInner c i ;; rosenLoop c is
 
+/-- The assignments of `RosenbrockGradient._call(x, out)` AFTER its copy guard, for a domain of
+size `n ≥ 2` and scale `c`: one statement per scalar assignment `out[i] = …`, in the order of the
+code (interior indices ascending, then `out[0]`, then `out[-1]`). On its own this is the whole
+body as it was BEFORE /repo c0dbe5c (see `C10.rosenOld`). -/
 def rosenProg (c : K) (n : Nat) : Stmt K :=
   rosenLoop c ((List.range (n - 2)).map (· + 1)) ;;
   .set out [out, x] (fun a k => if k = 0 then rosenFirstVal c (a 1) else a 0 k) ;;
   .set out [out, x] (fun a k => if k = n - 1 then rosenLastVal c n (a 1) else a 0 k)
 
-/-- The body with the proposed repair `if out is x: x = x.copy()` in front (NOT the code of
-/repo; used to state that the repair suffices). -/
+/-- `RosenbrockFunctional.gradient` : `RosenbrockGradient._call(x, out)` (example_funcs.py) as it
+is since /repo c0dbe5c: `if out is x: x = x.copy()` followed by the assignments. THIS is the
+model of the code; the driver executes it (`aux id=rosen`). -/
 def rosenFixed (c : K) (n : Nat) : Stmt K :=
   .ifIs x out (.new x [x] (fun a => a 0)) .skip ;; rosenProg c n
 
